@@ -600,6 +600,7 @@ def geoinv(g):
             add('orphans', ('duplicate-position' if dup else 'isolated', id(n)),
                 'node %r at %r belongs to no column%s' % (n.name, tuple(float(v) for v in n.pos),
                                                          ' (another node has the same position)' if dup else ''))
+    out["_connected"] = is_connected(g)
     return out
 
 
@@ -614,8 +615,28 @@ def consistent(inv):
     return not any(inv[c] for c in INVARIANT_CLAUSES)
 
 
+def is_connected(g):
+    """are all columns joined to each other through connections? (the property is about connected geometries)"""
+    cols = g.columnlist
+    if len(cols) <= 1:
+        return True
+    adj = {}
+    for k in g.connectionlist:
+        a, b = k.column
+        adj.setdefault(id(a), []).append(b)
+        adj.setdefault(id(b), []).append(a)
+    seen, todo = {id(cols[0])}, [cols[0]]
+    while todo:
+        c = todo.pop()
+        for d in adj.get(id(c), []):
+            if id(d) not in seen:
+                seen.add(id(d))
+                todo.append(d)
+    return all(id(c) in seen for c in cols)
+
+
 def mesh_valid(inv):
-    return not any(inv[c] for c in MESH_CLAUSES)
+    return not any(inv[c] for c in MESH_CLAUSES) and inv.get('_connected', True)
 
 
 def judge(name, exc, prev, cur, suffix=''):
